@@ -30,6 +30,7 @@ import SqiProofs.SkelThetaConv
 import SqiProofs.SkelThetaFConv
 import SqiModel.SkelRec
 import SqiProofs.SkelRecSim
+import SqiProofs.BalCaller
 import SqiProps.C18
 
 set_option maxRecDepth 100000
@@ -219,6 +220,63 @@ theorem translated_balanced_chain_sound (oracle : Nat → Bool) (fuel n : Nat) (
     k.obs.steps.map (fun s => s.1) = (List.range' 0 (n - 3)).map (fun (i : Nat) => (i : Int)) ∧
     (∀ s ∈ k.obs.steps, s.2.1 = 3) ∧ k.obs.p1 0 = some 4 ∧ k.obs.p2 0 = some 4 :=
   balanced_skel_sound oracle fuel n hn hf
+
+/-! ### the caller `theta_chain_comput_balanced` as translated text
+
+`SqiGen.BalCaller` (tools/translate/balcaller.py, regenerated from the C text on every run) holds the integer expressions of
+the caller: `long log, len = n - 3; for (log = 0; len > 1; len >>= 1) log++;` (as `lenInit`, `logInit`, `logLoop`), the VLA
+sizes `stack1/2[10 * log + 1]`, `steps[n - 1]`, the `malloc((n - 1) * sizeof …)` count, the five integer arguments of the call
+of `theta_chain_comput_rec` (the pointer arguments are checked literally by the translator), the slots `stackX[0] = QX` /
+`QX = stackX[0]`, the count 2 of the `double_iter` that sets up the kernel, the header `for (int i = n - 3; i < n - 1; i++)`
+of the trailing loop with every `out->steps[i]` index and `double_iter` count `n - i - 2` of its body, and the index `n - 2`
+read by `splitting_comput`.  NOTE: the C allocates `n - 1` steps; the observer of `translated_balanced_chain_sound` uses
+the looser size `total_length = n`, the corollary below adds that every touched index is `< n - 1`. -/
+
+open SqiGen.BalCaller in
+/-- the values re-extracted from the caller's text equal those assumed by the hand model `balanced n` / `balancedCap n`
+    and by the entry state of `translated_balanced_chain_sound` (every n ≥ 4, any loop fuel ≥ n - 3) -/
+theorem generated_balanced_caller_matches_model (lf n : Nat) (hn : 4 ≤ n) (hlf : n - 3 ≤ lf) :
+    stack1Size n (logLoop lf (lenInit n) logInit) = (balancedCap n : Int) ∧
+    stack2Size n (logLoop lf (lenInit n) logInit) = (balancedCap n : Int) ∧
+    recLen n = ((n - 3 : Nat) : Int) ∧ recIndex n = ((0 : Nat) : Int) ∧ recAdvance n = 0 ∧
+    recStacklen n = (([n + 1].length : Nat) : Int) ∧ recTotal n = (n : Int) ∧
+    stack1Push n = 0 ∧ stack2Push n = 0 ∧ stack1Pop n = 0 ∧ stack2Pop n = 0 ∧
+    kernelDbl1 n = 2 ∧ kernelDbl2 n = 2 ∧
+    stepsVla n = stepsMalloc n ∧ stepsMalloc n = ((n - 1 : Nat) : Int) ∧
+    tailLo n = recIndex n + recLen n ∧ tailHi n = stepsMalloc n ∧ splitIdx n = stepsMalloc n - 1 :=
+  SqiProofs.BalCaller.caller_matches_model lf n hn hlf
+
+open SqiGen.BalCaller in
+/-- the trailing loop of the caller stays inside `out->steps` (n - 1 elements), never passes a negative count to
+    `double_iter`, and its two iterations use kernels of exponent 3 (carried pair: exponent 4, then 3) -/
+theorem generated_balanced_tail_in_bounds (n : Nat) (hn : 4 ≤ n) (i : Int) (hlo : tailLo n ≤ i) (hhi : i < tailHi n) :
+    (∀ j ∈ tailStepIdx n i, 0 ≤ j ∧ j < stepsMalloc n) ∧ (∀ d ∈ tailDbl n i, 0 ≤ d) ∧
+    tailDbl n (tailLo n) = [4 - 3, 4 - 3] ∧ tailDbl n (tailLo n + 1) = [3 - 3, 3 - 3] ∧ tailLo n + 2 = tailHi n :=
+  SqiProofs.BalCaller.tail_in_bounds n hn i hlo hhi
+
+open SqiProofs.SkelRecSim SqiModel.SkelRec SqiGen.BalCaller in
+/-- **`translated_balanced_chain_sound` about what the caller's text says** (every n ≥ 4): the translated recursion, started
+    with the generated call arguments on stacks of the generated size `10 * log + 1` holding Q (exponent n+1) in the
+    generated slot, kernel R = [2^kernelDbl]Q, has no fault, performs exactly the steps 0 … n-4 with kernels of exponent 3,
+    leaves the carried pair (read back from the generated slot) with exponent 4; every step index is below the start of
+    the trailing loop and inside the `n - 1` allocated elements of `out->steps`, and so is the index of the final splitting. -/
+theorem translated_balanced_chain_sound_caller (oracle : Nat → Bool) (fuel lf n : Nat) (hn : 4 ≤ n)
+    (hf : balancedCap n ≤ fuel) (hlf : n - 3 ≤ lf) :
+    ∃ k, k = SqiGen.ChainSkel.theta_chain_comput_rec obs [] oracle fuel (n + 1) (recLen n) (recIndex n) (recAdvance n)
+        (recStacklen n) (recTotal n) 0 0 0 0
+        (SqiGen.ChainSkel.RecSt.init
+          (OSt.entry (stack1Size n (logLoop lf (lenInit n) logInit)).toNat n (n + 1 - (kernelDbl1 n).toNat) [n + 1])) ∧
+    k.fault = none ∧ k.obs.bad = false ∧
+    k.obs.steps.map (fun s => s.1) = (List.range' 0 (n - 3)).map (fun (i : Nat) => (i : Int)) ∧
+    (∀ s ∈ k.obs.steps, s.2.1 = 3) ∧ k.obs.p1 (stack1Pop n) = some 4 ∧ k.obs.p2 (stack2Pop n) = some 4 ∧
+    (∀ s ∈ k.obs.steps, 0 ≤ s.1 ∧ s.1 < tailLo n ∧ s.1 < stepsMalloc n) ∧
+    0 ≤ splitIdx n ∧ splitIdx n < stepsMalloc n :=
+  SqiProofs.BalCaller.balanced_caller_sound oracle fuel lf n hn hf hlf
+
+/-- non-vacuity: n = 4 … 259 with the fuel the caller would use -/
+example : (List.range 256).all (fun k =>
+    SqiGen.BalCaller.stack1Size (k + 4) (SqiGen.BalCaller.logLoop (k + 1) (SqiGen.BalCaller.lenInit (k + 4)) SqiGen.BalCaller.logInit)
+      == (balancedCap (k + 4) : Int)) = true := by decide +kernel
 
 theorem skeleton_rec_agrees_small : SqiModel.SkelRec.smallAllAgree = true := by decide +kernel
 
